@@ -159,6 +159,8 @@ type Engine struct {
 	entangled   map[*Term]bool
 	byteDecided int
 	randCtr     int
+	syncMaps    map[*Value]*Map
+	onceDone    map[*Value]bool
 	randLog     []randCall
 }
 
@@ -680,6 +682,8 @@ func (e *Engine) runPath(prefix []Dec) (end pathEnd) {
 	e.entangled = map[*Term]bool{}
 	e.randCtr = 0
 	e.randLog = nil
+	e.syncMaps = nil
+	e.onceDone = nil
 
 	// solver stack: keep the frames that agree with the new prefix
 	common := 0
@@ -704,6 +708,10 @@ func (e *Engine) runPath(prefix []Dec) (end pathEnd) {
 		}
 	}()
 
+	// package-level state is rebuilt for every path (a path is a fresh process): globals a change to the
+	// code may add and mutate (caches, ...) must not leak from one path into the next
+	e.globals = map[*ssa.Global]*Value{}
+	e.inited = false
 	if !e.inited {
 		e.inInit = true
 		for _, p := range e.x.initPkgs {
